@@ -8,6 +8,7 @@ CONSTANTS Fam = "R1"
  FixIdirArg = TRUE
  FixIdirOrder = TRUE
  CompDir = "directive"
+ OncePrescan = FALSE
  CacheFirst = FALSE
  MaxStack = 8
  Emit = FALSE
